@@ -773,7 +773,7 @@ class BandlimitedFIRNoiseFactory(Carrier):
         else:
             freq = np.array([fl, fh])
             sf = calibration.get_mean_sf(fl, fh, level)
-            sf = np.full_like(freq, fill_value=sf)
+            sf = np.full_like(freq, fill_value=sf, dtype=float)
 
         if max_correction is not None and equalize:
             sf = apply_max_correction(sf, max_correction)
